@@ -60,7 +60,17 @@ INLINE_CODE_SPAN = AtomicPattern(
 # Markdown links: [text](url) or [text][ref] or [text]
 MARKDOWN_LINK = AtomicPattern(
     name="markdown_link",
-    pattern=r"\[[^\]]*\](?:\([^)]*\)|\[[^\]]*\])?",
+    # Link text may hold one level of brackets (`[a [b] c](u)`). The part in parentheses
+    # is read as CommonMark does: a destination (in pointy brackets, or without spaces and
+    # with one level of parentheses), then white space and a title in quotes or parentheses
+    # (`(u "t (x) y")`). Where that reading fails, the simple one (up to the first `]` /
+    # `)`) still applies.
+    pattern=(
+        r"(?:\[(?:[^\[\]]|\[[^\[\]]*\])*\]|\[[^\]]*\])"
+        r"(?:\(\s*(?:<[^<>\n]*>|[^\s()<][^\s()]*(?:\([^\s()]*\)[^\s()]*)*)?"
+        r"(?:\s+(?:\"[^\"]*\"|'[^']*'|\([^()]*\)))?\s*\)"
+        r"|\([^)]*\)|\[[^\]]*\])?"
+    ),
     open_delim="",
     close_delim="",
     open_re="",
@@ -150,7 +160,13 @@ PAIRED_HTML_COMMENT = AtomicPattern(
 # HTML/XML tags: <tag>, </tag>
 HTML_OPEN_TAG = AtomicPattern(
     name="html_open_tag",
-    pattern=r"<[a-zA-Z][^>]*>",
+    # An open tag as CommonMark defines it (a `>` inside a quoted attribute value does not
+    # end the tag); anything else that looks like a tag, up to the first `>`, as before.
+    pattern=(
+        r"<[a-zA-Z][a-zA-Z0-9-]*"
+        r"(?:\s+[a-zA-Z_:][a-zA-Z0-9_.:-]*(?:\s*=\s*(?:[^\s\"'=<>`]+|'[^']*'|\"[^\"]*\"))?)*"
+        r"\s*/?>|<[a-zA-Z][^>]*>"
+    ),
     open_delim="",
     close_delim="",
     open_re="",
